@@ -139,6 +139,20 @@ def check_case(ctx, case):
         x, y, e = c.plottable()
         if x != [0, 2] or y != [v, w] or e != [d, 2 * d]:
             probs.append(('violation', 'view-plottable', '%r' % ((x, y, e),)))
+        # the view shows the CURRENT errors of the observables: look once, re-analyse the observables themselves, look again
+        rs_ = np.random.default_rng(int(abs(v) * 1e6) % 99991)
+        oa = pe.Obs([rs_.normal(1.0, 0.1, 40)], ['e'])
+        ob = pe.Obs([np.cumsum(rs_.normal(0.0, 0.1, 40)) * 0.2 + 2.0], ['e'])
+        c2 = pe.Corr([oa, ob])
+        first = c2.plottable()
+        oa.gamma_method(S=0)
+        ob.gamma_method(S=0)
+        e_s0 = [float(oa.dvalue), float(ob.dvalue)]
+        second = c2.plottable()
+        ob.gamma_method(S=3.0)
+        third = c2.plottable()
+        if first[2] != [0.0, 0.0] or second[2] != e_s0 or third[2] != [e_s0[0], float(ob.dvalue)] or second[1] != [float(oa.value), float(ob.value)]:
+            probs.append(('violation', 'view-plottable-stale', 'errors shown %r, %r, %r; current %r then %r' % (first[2], second[2], third[2], e_s0, [e_s0[0], float(ob.dvalue)])))
     return probs
 
 
